@@ -194,6 +194,8 @@ def install(lib):
 
     def b_isinstance(ex, x, t):
         ts = t if isinstance(t, tuple) else (t,)
+        rev = {id(B[k]): k for k in ("float", "int", "bool", "str", "list", "tuple", "dict", "set")}
+        ts = tuple(TypeTag(rev[id(tt)]) if id(tt) in rev else tt for tt in ts)
         for tt in ts:
             r = _isinst(ex, x, tt)
             if is_sym(r):
@@ -551,7 +553,11 @@ def install(lib):
             n = a[0]
             j = z3.Int("j!ew")
             return Arr(z3.Lambda([j], j), n)
-        raise Unsupported("arange(lo, hi)")
+        if len(a) == 2:
+            lo, hi = toz(a[0]), toz(a[1])
+            j = z3.Int("j!ew")
+            return Arr(z3.Lambda([j], j + lo), z3.If(hi > lo, hi - lo, 0))
+        raise Unsupported("arange(lo, hi, step)")
 
     def np_interp(ex, x, xp, fp):
         """jnp.interp(x, xp, fp): piecewise-linear interpolation through the knots (xp[k], fp[k]), clamped outside; xp non-decreasing"""
@@ -606,9 +612,28 @@ def install(lib):
     def np_ones(ex, shape=(), **k):
         if shape == () or shape == []:
             return 1.0
+        if isinstance(shape, (tuple, list)) and len(shape) == 1:
+            return Arr(z3.K(INT, z3.RealVal(1)), shape[0])
         raise Unsupported("ones(shape)")
 
-    common = dict(interp=np_interp, argwhere=np_argwhere, ones=np_ones, arange=np_arange, array=np_array, asarray=np_asarray, where=np_where, clip=np_clip, roll=np_roll, take=np_take, maximum=np_maximum, minimum=np_minimum,
+    def np_zeros(ex, shape=(), **k):
+        if shape == () or shape == []:
+            return 0.0
+        if isinstance(shape, (tuple, list)) and len(shape) == 1:
+            return Arr(z3.K(INT, z3.RealVal(0)), shape[0])
+        raise Unsupported("zeros(shape)")
+
+    def np_amax(ex, x, axis=None, **k):
+        if isinstance(x, Arr):
+            return axiomatize_max(ex, [], x, "max")
+        return x
+
+    def np_amin(ex, x, axis=None, **k):
+        if isinstance(x, Arr):
+            return axiomatize_max(ex, [], x, "min")
+        return x
+
+    common = dict(max=np_amax, min=np_amin, amax=np_amax, amin=np_amin, zeros=np_zeros, interp=np_interp, argwhere=np_argwhere, ones=np_ones, arange=np_arange, array=np_array, asarray=np_asarray, where=np_where, clip=np_clip, roll=np_roll, take=np_take, maximum=np_maximum, minimum=np_minimum,
                   isnan=np_isnan, ceil=np_ceil, floor=np_floor, sqrt=np_sqrt, zeros_like=np_zeros_like, ones_like=np_ones_like,
                   logical_and=np_logical("and"), logical_or=np_logical("or"), logical_not=np_logical_not, exp=np_exp, log=np_log, tanh=np_tanh,
                   arctanh=np_arctanh, abs=b_abs, square=lambda ex, x: ex.binop(ast.Mult(), x, x),
@@ -732,8 +757,48 @@ def install(lib):
         used(ex, "jax.lax.scan(f, c, xs) folds f over the leading axis of xs and stacks the per-step outputs (fold contract; f verified on an arbitrary carry)")
         return h(ex, f, init, xs, length)
 
-    lax = NS("jax.lax", {"cond": lax_cond, "stop_gradient": lambda ex, x: x, "fori_loop": lax_fori_loop, "scan": lax_scan, "dynamic_slice": lax_dynamic_slice})
-    rnd = NS("jax.random", {})
+    def lax_while_loop(ex, cond, body, init):
+        """invariant rule for jax.lax.while_loop (sidecar invariant under the key ('lax.while_loop', 1))"""
+        used(ex, "jax.lax.while_loop(c, b, x) iterates b while c holds (invariant rule; termination not proved)")
+        spec = ex.loops.get(("lax.while_loop", 1))
+        if spec is None:
+            raise Unsupported("lax.while_loop needs an invariant")
+        ex.oblige("while_loop.init", spec.inv(ex, init), kind="loop-init")
+        x = ex.havoc(init, "while_carry")
+        ex.assume(spec.inv(ex, x))
+        if ex.decide(ex.truth(ex.call(cond, [x], {}))):
+            x2 = ex.call(body, [x], {})
+            ex.oblige("while_loop.preserve", spec.inv(ex, x2), kind="loop-preserve")
+            raise CutPath("while_loop body done")
+        return x
+
+    lax = NS("jax.lax", {"while_loop": lax_while_loop, "cond": lax_cond, "stop_gradient": lambda ex, x: x, "fori_loop": lax_fori_loop, "scan": lax_scan, "dynamic_slice": lax_dynamic_slice})
+    SPLIT = z3.Function("rng_split", Leaf, INT, Leaf)
+
+    class _Keys:
+        def __init__(self, rng, n):
+            self.rng, self.n = rng, n
+
+        def unpack(self, ex, k):
+            return [SPLIT(self.rng, i) for i in range(k)]
+
+        def pyvc_getitem(self, ex, i):
+            if isinstance(i, slice):
+                if isinstance(self.n, int) and all(x is None or isinstance(x, int) for x in (i.start, i.stop, i.step)):
+                    return [SPLIT(self.rng, t) for t in range(self.n)[i]]
+                return _KeySlice(self, i)
+            return SPLIT(self.rng, toz(i))
+
+    class _KeySlice:
+        def __init__(self, keys, sl):
+            self.keys, self.sl = keys, sl
+
+    def rnd_split(ex, rng, num=2):
+        used(ex, "jax.random.split(key, n) returns n keys that are functions of (key, index)")
+        return _Keys(rng, num)
+
+    rnd = NS("jax.random", {"split": rnd_split, "PRNGKey": lambda ex, seed: z3.Const(f"PRNGKey({seed})", Leaf)})
+    lib.KeysType = _Keys
     jaxns = NS("jax", {"tree_util": tree_util, "lax": lax, "numpy": jnp, "random": rnd, "Array": TypeTag("jax.Array"),
                        "tree_map": tree_map, "tree_leaves": tree_leaves})
     jaxns.entries["dtypes"] = NS("jax.dtypes", {"canonicalize_dtype": lambda ex, d: d})
